@@ -140,7 +140,7 @@ type c29Bounds struct {
 	dbSess, dbForn            int // plain DB stores
 	memSess                   int
 	holeSess, holeForn        int // additions in worlds whose stored history has holes
-	walk                      int // length of the black-box Prev/Next walks
+	walk, smallSize, walkBig  int // length of the black-box Prev/Next walks in worlds of <= smallSize commands / in larger worlds
 	layers                    int // foreign additions while a cursor is in use
 }
 
@@ -693,7 +693,11 @@ func c29RunWorld(wi int, w *c29World, b c29Bounds, vc *c29Collector, l *vk.Local
 					cw.bfs([]c29Node{{start, -1, ""}}, st)
 				}
 				if !cw.bad {
-					cw.walks(b.walk, st)
+					if w.size() <= b.smallSize {
+						cw.walks(b.walk, st)
+					} else {
+						cw.walks(b.walkBig, st)
+					}
 				}
 			}); p != "" {
 				if strings.Contains(p, "harness:") {
@@ -756,11 +760,11 @@ func c29ShowList(exp []c29Entry) string {
 func TestVerifC29(t *testing.T) {
 	vk.Run(t, "C29", "model_checking", func(c *vk.Ctx) {
 		b := vk.Pick(c,
-			c29Bounds{stored: 3, storedDel: 3, maxDel: 1, sess: 2, forn: 2, dbSess: 1, dbForn: 1, memSess: 2, holeSess: 1, holeForn: 1, walk: 6, layers: 1},
-			c29Bounds{stored: 4, storedDel: 3, maxDel: 3, sess: 2, forn: 2, dbSess: 2, dbForn: 1, memSess: 3, holeSess: 1, holeForn: 1, walk: 8, layers: 2})
+			c29Bounds{stored: 3, storedDel: 3, maxDel: 1, sess: 2, forn: 2, dbSess: 1, dbForn: 1, memSess: 2, holeSess: 1, holeForn: 1, walk: 8, smallSize: 3, walkBig: 6, layers: 1},
+			c29Bounds{stored: 4, storedDel: 3, maxDel: 3, sess: 2, forn: 2, dbSess: 2, dbForn: 1, memSess: 3, holeSess: 1, holeForn: 1, walk: 8, smallSize: 5, walkBig: 6, layers: 2})
 		worlds := c29Worlds(b)
-		c.Rule(fmt.Sprintf("world = (store kind in %q, stored history = every sequence of <=%d commands over %q [boltdb kinds also: every history of <=%d commands with 1..%d of them deleted before the session], every interleaving of <=%d session and <=%d foreign additions over the same texts for hybrid stores (<=%d/<=%d for plain DB stores, <=%d session additions for memory stores)); in every world every prefix in %q with and without NewDedupCursor: breadth-first search of the product (exact cursor state x reference position) under {Prev, Next} to a fixpoint (i.e. walks of every length), continued from every reached state after each of %d further foreign addition(s) made while the cursors are live, plus every Prev/Next walk of <=%d steps replayed on a fresh cursor through the Cursor interface only; Get is compared with the reference after every step; worlds simplest first; class = (store kind, dedup and number of removed duplicates, prefix, matching old / session / hidden commands, holes)",
-			c29KindNames, b.stored, c29Texts, b.storedDel, b.maxDel, b.sess, b.forn, b.dbSess, b.dbForn, b.memSess, c29Prefixes, b.layers, b.walk))
+		c.Rule(fmt.Sprintf("world = (store kind in %q, stored history = every sequence of <=%d commands over %q [boltdb kinds also: every history of <=%d commands with 1..%d of them deleted before the session], every interleaving of <=%d session and <=%d foreign additions over the same texts for hybrid stores (<=%d/<=%d for plain DB stores, <=%d/<=%d for histories with holes, <=%d session additions for memory stores)); in every world every prefix in %q with and without NewDedupCursor: breadth-first search of the product (exact cursor state x reference position) under {Prev, Next} to a fixpoint (i.e. walks of every length), continued from every reached state after each of %d further foreign addition(s) made while the cursors are live, plus every Prev/Next walk of <=%d steps (<=%d steps in worlds with more than %d commands in total) replayed on a fresh cursor through the Cursor interface only; Get is compared with the reference after every step; worlds simplest first; class = (store kind, dedup and number of removed duplicates, prefix, matching old / session / hidden commands, holes)",
+			c29KindNames, b.stored, c29Texts, b.storedDel, b.maxDel, b.sess, b.forn, b.dbSess, b.dbForn, b.holeSess, b.holeForn, b.memSess, c29Prefixes, b.layers, b.walk, b.walkBig, b.smallSize))
 		c.Assume(
 			"reference: the session's view is the commands present in the database when the store was created plus the session's own additions (none for NewDBStore, whose view is documented as frozen), filtered by prefix, newest first, with dedup each text once at its most recent occurrence; an index into it clamped at one-past either end; Get must report ErrEndOfHistory exactly at the two one-past positions",
 			"foreign additions are made directly on the same database object (what the daemon does on behalf of another session); database errors, session additions while a cursor is live and concurrent use of one cursor are not covered",
